@@ -453,6 +453,7 @@ def install(it):
     A = it.add_model
     A(r'(?:std|core)::slice::<impl \[u8\]>::to_vec', m_to_vec)
     A(r'bytes::Bytes::to_vec', m_to_vec)
+    A(r'<std::vec::Vec<u8> as std::convert::From<&\[u8\]>>::from', m_to_vec)
     A(r'<.* as futures::StreamExt>::next', m_stream_next)
     A(r'<futures::stream::FuturesUnordered<.*> as futures::Stream>::poll_next', m_futures_unordered_poll_next)
     A(r"<futures::stream::Next<'_, .*> as (?:std::future|futures)::Future>::poll", m_next_poll)
